@@ -27,5 +27,7 @@ for id in ${ids//,/ }; do
   echo "check $id on $(basename $(dirname $patch)): exit $rc"
   grep -E "VIOLATION|violations by key|OK property|TOOL-ERROR|SPEC-DEVIATION" "$V/.build/try-$id.log" | cut -c1-400 | head -6
   [ $rc -ge 2 ] && tail -5 "$V/.build/try-$id.log" | cut -c1-300
+  # keep the replay file of a reported violation for inspection (scratch, git-ignored)
+  mkdir -p /verif/.build/iso-replays && cp "$V"/replays/$id-*.json /verif/.build/iso-replays/ 2>/dev/null
 done
 exit 0
